@@ -3,10 +3,13 @@ package main
 import (
 	"bytes"
 	"fmt"
+	"time"
 
 	"gitlab.com/gomidi/midi/v2/drivers"
+	"gitlab.com/gomidi/midi/v2/drivers/testdrv"
 	"gitlab.com/gomidi/midi/v2/internal/verifh/engine"
 	"gitlab.com/gomidi/midi/v2/internal/verifh/refsmf"
+	"gitlab.com/gomidi/midi/v2/internal/verifh/vtime"
 	sp "gitlab.com/gomidi/midi/v2/internal/verifh/smfspace"
 	"gitlab.com/gomidi/midi/v2/smf"
 )
@@ -158,6 +161,167 @@ func queuedDriver() {
 				detail["what"] = fmt.Sprintf("%d messages handed over from inside Listen, two afterwards: the track holds % X, expected the tempo event, % X and the end of track", nq, got, want)
 				ctx.Violation("record:queued-driver:content", detail)
 				return
+			}
+			ctx.NontrivialN(1)
+		}
+	}
+}
+
+// equalTakes: the same phrase recorded two and three times into one file
+// (SMF.RecordFrom on the loopback, the virtual clock makes the takes equal
+// event for event, delta for delta): every take is a track of its own.
+func equalTakes() {
+	phrases := [][][]byte{
+		{{0x90, 0x3C, 0x40}, {0x80, 0x3C, 0x00}},
+		{{0xC1, 0x05}},
+		{},
+		{{0xF8}, {0xFE}},
+		{{0x90, 0x3C, 0x40}, {0xF8}, {0x3E, 0x41}, {0xB0, 0x07, 0x64}},
+	}
+	for pi, ph := range phrases {
+		for takes := 2; takes <= 3; takes++ {
+			ctx.Eval()
+			vtime.Reset()
+			drv := testdrv.New("rec")
+			ins, _ := drv.Ins()
+			outs, _ := drv.Outs()
+			outs[0].Open()
+			file := smf.New()
+			file.TimeFormat = smf.MetricTicks(480)
+			detail := map[string]interface{}{"kind": "equal-takes", "phrase": pi, "takes": takes}
+			nch := 0
+			for _, m := range ph {
+				if m[0] >= 0x80 && m[0] < 0xF0 || m[0] < 0x80 {
+					nch++
+				}
+			}
+			for t := 0; t < takes; t++ {
+				var stop func()
+				var err error
+				c := engine.Catch(func() { stop, err = file.RecordFrom(ins[0], 120) })
+				if c.Panicked || err != nil {
+					detail["what"] = fmt.Sprintf("RecordFrom (take %d) failed: %v %s", t+1, err, c.Value)
+					ctx.Violation("record:equal-takes:start", detail)
+					return
+				}
+				for _, m := range ph {
+					drv.Sleep(10 * time.Millisecond)
+					outs[0].Send(m)
+				}
+				stop()
+			}
+			if len(file.Tracks) != takes {
+				detail["what"] = fmt.Sprintf("%d takes of the same phrase recorded into one file: the file holds %d tracks", takes, len(file.Tracks))
+				ctx.Violation("record:equal-takes:track-count", detail)
+				continue
+			}
+			for ti, tr := range file.Tracks {
+				got := 0
+				for _, e := range sp.FromTrack(tr) {
+					if len(e.Msg) > 0 && e.Msg[0] >= 0x80 && e.Msg[0] < 0xF0 {
+						got++
+					}
+				}
+				if got != nch {
+					detail["what"] = fmt.Sprintf("take %d holds %d channel messages, %d arrived", ti+1, got, nch)
+					ctx.Violation("record:equal-takes:content", detail)
+				}
+			}
+			var buf bytes.Buffer
+			if _, werr := file.WriteTo(&buf); werr != nil {
+				detail["what"] = werr.Error()
+				ctx.Violation("record:equal-takes:write", detail)
+				continue
+			}
+			exp, perr := refsmf.Parse(buf.Bytes(), refsmf.Strict)
+			if perr != nil || len(exp.Tracks) != takes {
+				detail["what"] = fmt.Sprintf("the written file: %v, %d tracks", perr, func() int {
+					if exp == nil {
+						return -1
+					}
+					return len(exp.Tracks)
+				}())
+				ctx.Violation("record:equal-takes:invalid-file", detail)
+				continue
+			}
+			ctx.NontrivialN(1)
+		}
+	}
+}
+
+// closedWhileListening: the track is closed while the listener is still
+// active and more messages arrive before stop: the track stays a closed
+// track (one end-of-track, nothing behind it), is written as a valid file and
+// reads back as it is.
+func closedWhileListening() {
+	for _, after := range [][][]byte{{{0x90, 0x3C, 0x40}}, {{0x3E, 0x41}, {0xC1, 0x05}}, {{0xF8}}, {}} {
+		for _, viaFile := range []bool{false, true} {
+			ctx.Eval()
+			vtime.Reset()
+			drv := testdrv.New("rec")
+			ins, _ := drv.Ins()
+			outs, _ := drv.Outs()
+			outs[0].Open()
+			var tr smf.Track
+			detail := map[string]interface{}{"kind": "closed-while-listening", "messages_after_close": len(after), "via_file": viaFile}
+			var stop func()
+			var err error
+			c := engine.Catch(func() { stop, err = tr.RecordFrom(ins[0], smf.MetricTicks(960), 120) })
+			if c.Panicked || err != nil {
+				detail["what"] = fmt.Sprintf("RecordFrom failed: %v %s", err, c.Value)
+				ctx.Violation("record:closed-while-listening:start", detail)
+				return
+			}
+			drv.Sleep(5 * time.Millisecond)
+			outs[0].Send([]byte{0x90, 0x30, 0x31})
+			tr.Close(3)
+			for _, m := range after {
+				drv.Sleep(5 * time.Millisecond)
+				outs[0].Send(m)
+			}
+			c = engine.Catch(stop)
+			if c.Panicked {
+				detail["what"] = "stop panicked: " + c.Value
+				ctx.Violation(c.Sig+":closed-while-listening", detail)
+				continue
+			}
+			evs := sp.FromTrack(tr)
+			eots := 0
+			for i, e := range evs {
+				if len(e.Msg) == 3 && e.Msg[0] == 0xFF && e.Msg[1] == 0x2F {
+					eots++
+					if i != len(evs)-1 {
+						eots += 100
+					}
+				}
+			}
+			if eots != 1 {
+				var got [][]byte
+				for _, e := range evs {
+					got = append(got, e.Msg)
+				}
+				detail["what"] = fmt.Sprintf("a track closed while its listener was still active holds % X (one end of track, at the end, is expected)", got)
+				ctx.Violation("record:closed-while-listening:not-closed", detail)
+				continue
+			}
+			file := smf.New()
+			file.Add(tr)
+			var buf bytes.Buffer
+			if _, werr := file.WriteTo(&buf); werr != nil {
+				detail["what"] = werr.Error()
+				ctx.Violation("record:closed-while-listening:write", detail)
+				continue
+			}
+			if _, perr := refsmf.Parse(buf.Bytes(), refsmf.Strict); perr != nil {
+				detail["what"] = "strict parser rejects the file: " + perr.Error()
+				ctx.Violation("record:closed-while-listening:invalid-file", detail)
+				continue
+			}
+			back, rerr := smf.ReadFrom(bytes.NewReader(buf.Bytes()))
+			if rerr != nil || len(back.Tracks) != 1 || refsmf.FirstDiff(sp.FromTrack(file.Tracks[0]), sp.FromTrack(back.Tracks[0])) != "" {
+				detail["what"] = fmt.Sprintf("the file does not read back to the recorded events (%v)", rerr)
+				ctx.Violation("record:closed-while-listening:read-back", detail)
+				continue
 			}
 			ctx.NontrivialN(1)
 		}
